@@ -26,7 +26,7 @@ ASSUMPTIONS = ['Coordinates of the neighbour-search point sets are small integer
                'A violation seen only under the scripted generator is reported only when a real integer seed '
                'reproducing the same clause violation is found (G1c).']
 BOUNDS = {'quick': dict(pairs_len=6, chunks_len=6, knn_len=6, e3_len=5, e3_cap=1500, e3_dev=1),
-          'thorough': dict(pairs_len=7, chunks_len=7, knn_len=7, e3_len=6, e3_cap=20000, e3_dev=2)}
+          'thorough': dict(pairs_len=7, chunks_len=7, knn_len=7, e3_len=6, e3_cap=8000, e3_dev=2)}
 
 
 # ----------------------------------------------------------------------------- reference rules
@@ -231,7 +231,7 @@ def cases(tier, seed):
         if any(x >= 0 for x in t):
             out.append(('chunks/' + ','.join(map(str, t)), ('chunks', t)))
     seen = set()
-    for alph, hi in (((-1, 0, 1), b['knn_len']), ((-1, 0, 1, 2), b['knn_len'] - (0 if tier == 'thorough' else 0))):
+    for alph, hi in (((-1, 0, 1), b['knn_len']), ((-1, 0, 1, 2), b['knn_len'] - (1 if tier == 'thorough' else 0))):
         for t in label_vectors(alph, 4, hi):
             if t in seen or not knn_ok(t):
                 continue
